@@ -70,8 +70,11 @@ class Harness:
             def process_page(self, image, page_layout):
                 h.processed.append(page_layout.id)
                 reg = layout.RegionLayout('r1', np.array([[2, 2], [60, 2], [60, 44], [2, 44]]))
+                # the result depends on the IMAGE the page was parsed from (its grey level shifts the lines), not only on the page id:
+                # a resumed run that pairs a page id with another page's image produces other outputs than the uninterrupted run
+                shift = 0 if image is None else int(image[0, 0, 0]) // 30
                 for li in range(2):
-                    y = 12 + 16 * li
+                    y = 12 + 16 * li + shift
                     T, C = 6, 4
                     lg = np.full((T, C), -8.0)
                     for t, c in enumerate([3, 0, 3, 1, 3, 3]):
@@ -83,6 +86,26 @@ class Harness:
                 page_layout.regions.append(reg)
                 return page_layout
         self.pf.PageParser = StubParser
+
+        class SeqPool:
+            """stands for multiprocessing.Pool inside the (daemonic) check workers, which may not have children: same constructor
+            contract (at least one process), starmap evaluated in order in this process"""
+            def __init__(self, processes=None, *a, **k):
+                if processes is not None and processes < 1:
+                    raise ValueError('Number of processes must be at least 1')
+
+            def __enter__(self):
+                return self
+
+            def __exit__(self, *a):
+                return False
+
+            def starmap(self, fn, iterable, chunksize=None):
+                return [fn(*args) for args in iterable]
+
+            def map(self, fn, iterable, chunksize=None):
+                return [fn(x) for x in iterable]
+        self.pf.Pool = SeqPool
 
         def guard(fn):
             def wrapped(*a, **k):
@@ -128,11 +151,13 @@ class Harness:
             self.cv2.imwrite = w
             self.pf.cv2.imwrite = w
 
-    def run_main(self, base, kinds, skip, kill_at=None):
+    def run_main(self, base, kinds, skip, kill_at=None, processes=None):
         """returns 'ok' | 'killed' | 'error: ...'"""
         argv = ['parse_folder.py', '-c', os.path.join(base, 'config.ini'), '-i', os.path.join(base, 'in'), '--device', 'cpu']
         if skip:
             argv.append('-s')
+        if processes:
+            argv += ['--process-count', str(processes)]
         flag = {'xml': '--output-xml-path', 'render': '--output-render-path', 'logits': '--output-logit-path', 'alto': '--output-alto-path', 'lines': '--output-line-path'}
         for k in kinds:
             argv += [flag[k], os.path.join(base, 'out_' + k)]
@@ -229,6 +254,10 @@ def check_plan(ids, kinds, kills):
                 bad.append(('clean-exit', 'run with nothing left to do: %s' % r))
             elif h.processed:
                 bad.append(('complete-pages-not-reprocessed', 'idle run processed %r' % h.processed))
+            # the same with worker processes requested (there is no page for them to work on)
+            r = h.run_main(base, kinds, skip=True, processes=2)
+            if r != 'ok':
+                bad.append(('clean-exit', 'run with nothing left to do and --process-count 2: %s' % r))
     finally:
         shutil.rmtree(ref, ignore_errors=True)
         shutil.rmtree(base, ignore_errors=True)
